@@ -557,7 +557,22 @@ def rule_ownrun(ctx):
                 if stores or delegates:
                     marks.append(n.id)
             key = ctx.key(m, "C16-OWNRUN", "records-suboptimizer")
-            if marks and fl2.cfg.all_paths_pass(fl2.cfg.entry.id, marks):
+            # the slot is filled only once the search it describes has finished: a query can run
+            # nested queries of the same thread through the same optimizer (partition builders
+            # join their parts with optimize="auto-hq"), and each of them fills the slot too
+            searches = [n.id for n in fl2.cfg.nodes if n.kind == "stmt" and n.ast is not None and any(
+                isinstance(x, ast.Call) and isinstance(x.func, ast.Attribute) and x.func.attr in ("search", "__call__")
+                for x in ast.walk(n.ast))]
+            store_nodes = [n for n in marks if isinstance(fl2.cfg.nodes[n].ast, ast.Assign) and any(
+                isinstance(t, ast.Subscript) for t in fl2.cfg.nodes[n].ast.targets)]
+            early = [sn for sn in store_nodes
+                     if any(sr in fl2.cfg.reachable_from_succs(sn) for sr in searches)]
+            if early:
+                r.violation(key, C.loc(m, fl2.cfg.nodes[early[0]].ast), "the sub-optimizer is recorded for this "
+                            "thread *before* its search runs: a nested query of the same thread (a partition "
+                            "trial joining its parts through the same preset) records its own afterwards, and "
+                            "the outer query hands back the nested query's tree")
+            elif marks and fl2.cfg.all_paths_pass(fl2.cfg.entry.id, marks):
                 r.ok(key, m.loc, "the sub-optimizer that ran is recorded for this thread on every path")
             else:
                 pth = fl2.cfg.path_avoiding(fl2.cfg.entry.id, marks) if marks else None
